@@ -19,6 +19,11 @@ CLAIMED["C18"] = dict(
     text="The transition relation is evaluated over all 36 variant pairs and accepted only when strictly forward; every insert into the map of running queries is a transition() result, an identity re-insert or a forward (from<to) replacement with `from` refined per path; every removal re-inserts on all paths except the designated forgetting ones; the new_query cleanup guard covers every fallible step; min_status is the meet for all 25 pairs. Decides the store/transition discipline, not the absence of panics over arbitrary histories.",
     ref="§3 C18")
 
+CLAIMED["C20"] = dict(
+    technique="static analysis: abstract evaluation of the axum router builders (route/merge/nest/layer census over resolved callees), variant-set dataflow for the guard polarity of the authentication layer, who-may-construct census for the identity type, dominator check of TLS vs plain-HTTP arms",
+    text="Every route reachable through the helper-to-helper and shard-to-shard routers is shown to be wrapped by the authentication layer (a route merged after .layer() is reported), the layer forwards only on the Some edge of the ClientIdentity lookup and answers 401 otherwise, collector routes carry no such layer, identities are created only from the certificate (or from the header on the disable_https arms), and no handler reads headers itself. Decides the wiring; axum/tower/rustls are trusted.",
+    ref="§3 C20")
+
 NOT_APPLICABLE = {
     "C01": "end-to-end numerical equality of the MPC histogram with a plaintext reference over all inputs/shardings: no clause of it is visible in code shape; static analysis in reach cannot bound it (DESIGN.md §4)",
     "C07": "functional correctness of arithmetic/Boolean circuits over all operand values is numerical; would need symbolic execution of the circuits, a different technique family (DESIGN.md §4)",
